@@ -169,7 +169,9 @@ def run(ctx):
             sh = (bus // 8).bit_length() - 1
             exp = Op("-", (Sym("wishbone.adr"), Op(">>", (Sym("base_address"), Const(sh)))))
             ob4.instance("%s command address" % tag, key(val))
-            if key(val) != key(exp):
+            if key(val) != key(exp) and not any("wishbone.adr" in x for x in support(val)):
+                ob4.unknown("%s: the command address found is %s, which is not built from the bus address directly (a converter's own address): the bridge's address is not decided here" % (tag, key(val)))
+            elif key(val) != key(exp):
                 ob4.refute("addr:%s" % tag, "%s: command address is %s, expected wishbone.adr - (base_address >> %d)" % (tag, key(val), sh), a[0].loc)
     n = wb_view(ctx, 32, 128)
     f = ack_rules(ctx, ob1, n, "narrow bus")
